@@ -107,3 +107,61 @@ func HarnessC02ConcSingleLeaf() {
 	sch.Start(t0)
 	c02ConcBody(sch, n, 2, 3, vTimeNs(t0))
 }
+
+// Concurrent Next/Left over composite(once(n1), once(n2), unlimited(d)): the tokens of the
+// bounded parts (they carry the start time) are handed out exactly once, also while Left()
+// callers shift the composite to its next part.
+func HarnessC02ConcBeforeUnlimited() {
+	n1 := vConcretize(vNondetInt("n1", 1, 2))
+	n2 := vConcretize(vNondetInt("n2", 1, 2))
+	// long enough that no sequence of clock readings of this harness reaches its end
+	d := time.Duration(vNondetInt("d", 100_000_000_000_000_000, 200_000_000_000_000_000))
+	sch := NewComposite(NewOnce(n1), NewOnce(n2), NewUnlimited(d))
+	t0 := vNondetTime("t0")
+	vSetClock(vTimeNs(t0))
+	sch.Start(t0)
+	vAdvanceClock(1) // every reading of the clock is now after the start: unlimited tokens are > t0
+	const nCallers, opsPer = 2, 4
+	res := make([][]c02Res, nCallers)
+	var wg sync.WaitGroup
+	for c := 0; c < nCallers; c++ {
+		res[c] = make([]c02Res, opsPer)
+		wg.Add(1)
+		go func(c int) {
+			defer wg.Done()
+			for i := 0; i < opsPer; i++ {
+				if (i+c)%2 == 0 {
+					res[c][i] = c02Res{left: sch.Left(), isL: true}
+					continue
+				}
+				tx, ok := sch.Next()
+				res[c][i] = c02Res{ok: ok, t: vTimeNs(tx)}
+			}
+		}(c)
+	}
+	wg.Wait()
+	bounded, draws := int64(0), int64(0)
+	for c := 0; c < nCallers; c++ {
+		last := int64(0)
+		for i := 0; i < opsPer; i++ {
+			r := res[c][i]
+			if r.isL {
+				vCheck("K3.left.unknown.while.unlimited.ahead", r.left < 0)
+				continue
+			}
+			draws++
+			vCheck("K1.token.while.unlimited.runs", r.ok)
+			if r.ok && r.t == vTimeNs(t0) {
+				bounded++
+			}
+			vCheck("K2.per.caller.monotone", r.t >= last)
+			last = r.t
+		}
+	}
+	exp := n1 + n2
+	if draws < exp {
+		exp = draws
+	}
+	vCheck("K1.bounded.tokens.exactly.once", bounded == exp)
+	vReach("end")
+}
